@@ -97,17 +97,27 @@ def scheme_part():
     guard = any(t == ["unless", ["eq?", "save", ["get-tls", "winders"]], ["do-wind", "save"]] for t in subterms(cc))
     dyn = find_define(forms, "dynamic-wind")
     handler_ok = False
+    guarded = False
+    pop = ["set-tls!", "winders", ["cdr", ["get-tls", "winders"]]]
     for t in subterms(dyn):
         if isinstance(t, list) and t[:2] == ["lambda", ["err"]]:
             body = [b for b in t[2:] if b != "void"]
-            handler_ok = body == [["set-tls!", "winders", ["cdr", ["get-tls", "winders"]]], ["out"], ["raise-error", "err"]]
-    push_ok = any(t == ["set-tls!", "winders", ["cons", ["cons", "in", "out"], ["get-tls", "winders"]]] for t in subterms(dyn))
+            if body == [pop, ["out"], ["raise-error", "err"]]:
+                handler_ok = True
+            # guarded form: the extent is left only if its entry is still the head of winders
+            elif body == [["when", ["if", ["pair?", ["get-tls", "winders"]], ["eq?", ["car", ["get-tls", "winders"]], "entry"], "#f"],
+                           ["begin", pop, ["out"]]], ["raise-error", "err"]]:
+                handler_ok = True
+                guarded = True
+    push_ok = any(t == ["set-tls!", "winders", ["cons", ["cons", "in", "out"], ["get-tls", "winders"]]] for t in subterms(dyn)) or (
+        any(t == ["let", [["entry", ["cons", "in", "out"]]]] or (isinstance(t, list) and t[:2] == ["let", [["entry", ["cons", "in", "out"]]]]) for t in subterms(dyn))
+        and any(t == ["set-tls!", "winders", ["cons", "entry", ["get-tls", "winders"]]] for t in subterms(dyn)))
     normal_ok = False
     for t in subterms(dyn):
         if isinstance(t, list) and t[:1] == ["let"] and isinstance(t[1], list) and t[1] and isinstance(t[1][0], list) and t[1][0][0] == "ans*":
             normal_ok = t[2:] == [["set-tls!", "winders", ["cdr", ["get-tls", "winders"]]], ["out"], "ans*"]
     return {"tests": tests, "cmp": kinds.pop(), "wrapper_guard_eq": guard, "wind_handler_pops_runs_out_reraises": handler_ok,
-            "wind_pushes_fresh_pair": push_ok, "wind_normal_pops_runs_out": normal_ok}
+            "wind_pushes_fresh_pair": push_ok, "wind_normal_pops_runs_out": normal_ok, "wind_handler_guarded": guarded}
 
 
 def strip_line_comments(src):
@@ -175,13 +185,15 @@ handler pops winders, runs `out` and raises the error again. -/
 def windPushesFreshPair : Bool := %s
 def windNormalPopsRunsOut : Bool := %s
 def windHandlerPopsRunsOutReraises : Bool := %s
+/-- … and does so only if the extent's entry is still the head of winders (repair of K08g). -/
+def windHandlerGuarded : Bool := %s
 
 /-- vm.rs: what the VM model is parameterised by. -/
 def codeCfg : Model.Cfg := { closeOnUnwind := %s, closeWhenShared := %s, dummyFrame := %s }
 
 end SteelVerif.C08.GenCode
 """ % (json.dumps(s), json.dumps(r), s["cmp"], b(s["wrapper_guard_eq"]), b(s["wind_pushes_fresh_pair"]),
-       b(s["wind_normal_pops_runs_out"]), b(s["wind_handler_pops_runs_out_reraises"]),
+       b(s["wind_normal_pops_runs_out"]), b(s["wind_handler_pops_runs_out_reraises"]), b(s["wind_handler_guarded"]),
        b(r["close_on_unwind"]), b(r["close_when_shared"]), b(r["dummy_frame"]))
     path = os.path.join(VERIF, "lean", "SteelVerif", "C08", "GenCode.lean")
     old = open(path).read() if os.path.exists(path) else None
